@@ -51,10 +51,13 @@ Tier1(r) ==
 (* ---- tier 2 ---- *)
 (* r.devs: the deviations pinned for the tree under test (open findings and the latent ones behind them) *)
 DevsOf(r) == {r.devs[k] : k \in 1..Len(r.devs)}
+(* matrix states in which the session thread does not react: "busy" (the driver sent it into a step that never returns) and        *)
+(* "unresponsive" (the driver could not bring the session into the intended state because requests were not answered or failed)     *)
+NoReaction == {"busy", "unresponsive"}
 (* the debug thread leaves no life event when it panics; stderr says that it did (r.others) *)
 Died(r) == \E k \in 1..Len(r.others) : r.others[k] # SelectPanic
 Poisoned(r) == \E k \in 1..Len(r.others) : r.others[k] = LaunchUnwrap
-H0(r) == [s |-> S0, ok |-> TRUE, n |-> 0, why |-> "", dev |-> DevsOf(r), died |-> Died(r), poison |-> Poisoned(r), busy |-> (r.state = "busy")]
+H0(r) == [s |-> S0, ok |-> TRUE, n |-> 0, why |-> "", dev |-> DevsOf(r), died |-> Died(r), poison |-> Poisoned(r), busy |-> (r.state \in NoReaction)]
 Rej(h, n, why) == [h EXCEPT !.ok = FALSE, !.n = n, !.why = why]
 Need(h, n, cond, sn, why) == IF cond THEN [h EXCEPT !.s = sn] ELSE Rej(h, n, why)
 Ev(h, e, n) ==
@@ -113,7 +116,7 @@ Others(r) == [k \in 1..Len(r.others) |-> OtherPanic(r, r.others[k])]
 Pos(r, w) == IF Has(r, w) THEN CHOOSE k \in 1..Len(r.life) : r.life[k].what = w /\ \A m \in 1..(k - 1) : r.life[m].what # w ELSE 0
 Count(r, w) == Cardinality({k \in 1..Len(r.life) : r.life[k].what = w})
 Zombie(r) ==
-  IF ~Has(r, "dbg_join_return") \/ r.state = "busy" \/ Died(r) THEN <<>>
+  IF ~Has(r, "dbg_join_return") \/ r.state \in NoReaction \/ Died(r) THEN <<>>
   ELSE IF ~Has(r, "dbg_thread_end") \/ Pos(r, "dbg_thread_end") > Pos(r, "dbg_join_return")
        THEN <<V(r.id, "violation", "", "ThreadEndsUnlessBusy: the process ended while the debug thread was still blocked (no dbg_thread_end before DebugServer::join returned; last life events "
                 \o ToString([k \in 1..(IF Len(r.life) < 4 THEN Len(r.life) ELSE 4) |-> r.life[Len(r.life) - (IF Len(r.life) < 4 THEN Len(r.life) ELSE 4) + k].what])
